@@ -131,6 +131,16 @@ class ClusterOpsModel:
                     self.count('ingest_started')
                 else:
                     self.count('ingest_refused')
+            elif kind == 'ingest_force':
+                # Cluster.provision_ingest_resources called directly (as the repository's own test does):
+                # it either proceeds or refuses with RuntimeError - a refusal must change nothing
+                _, demand, duration = op
+                self.k += 1
+                obs = StubObservation(f"ing{self.k}", duration)
+                tr.pending_ingest += demand
+                self._force = {'before': before, 'ud': dict(cl._clusters['default']['usage_data']), 'nalloc': len(tr.allocs)}
+                env.process(cl.provision_ingest_resources(demand, obs))
+                self.count('ingest_force')
             elif kind == 'allocate':
                 _, duration, midx, obs = op
                 self.k += 1
@@ -148,7 +158,22 @@ class ClusterOpsModel:
                 raise
             rec = next((a for a in reversed(tr.allocs) if a.get('refused')), None)
             refused_now = kind == 'allocate' and rec is not None and rec['t'] == env.now and rec['task'] == f"t_{self.k}"
-            if refused_now:
+            if kind == 'ingest_force' and T.repo_frame(e) and 'provision_ingest_resources' in T.repo_frame(e):
+                self.count('ingest_force_refused')
+                try:
+                    self._settle()
+                except Exception as e2:
+                    extra.append({'prop': 'C02', 'part': 'operation_raised',
+                                  'msg': f"{op}: {type(e2).__name__}@{T.repo_frame(e2)} {e2}"})
+                    self.dead = True
+                f = self._force
+                after = T.pools_snapshot(cl)
+                if after != f['before'] or dict(cl._clusters['default']['usage_data']) != f['ud'] or len(tr.allocs) != f['nalloc']:
+                    extra.append({'prop': 'C02', 'part': 'refusal_changed_pools',
+                                  'msg': f"refused provision_ingest_resources({op[1]}) ({type(e).__name__}) changed the cluster: pools {f['before']} -> {after}, "
+                                         f"counters {f['ud']} -> {dict(cl._clusters['default']['usage_data'])}, {len(tr.allocs) - f['nalloc']} ingest tasks started"})
+                    self.dead = True
+            elif refused_now:
                 self.count('allocate_refused')
                 # drain the rest of this instant
                 try:
